@@ -116,8 +116,10 @@ ELEMENT_DROPPING = {
     "skip", "take", "step_by", "filter", "filter_map", "skip_while", "take_while", "zip", "chunks", "chunks_exact",
     "rchunks", "rchunks_exact", "array_chunks", "windows", "dedup", "dedup_by", "dedup_by_key", "nth", "last", "find",
     "find_map", "position", "truncate", "drain", "retain", "split_off", "pop", "remove", "swap_remove", "split_at",
-    "split_first", "split_last", "first", "fuse", "map_while", "scan", "flat_map", "flatten", "peekable", "rev",
+    "fuse", "map_while", "scan", "flat_map", "flatten", "peekable", "rev",
 }
+# `split_first` / `split_last` / `first` are indexing in disguise (`(&x[0], &x[1..])`; the evaluator rewrites the payload
+# to those canonical terms): like `x[0]` and `x[1..]` they are judged by the coverage rules, not denied by name.
 ONE_TO_ONE = {"iter", "iter_mut", "into_iter", "map", "enumerate", "collect", "copied", "cloned", "as_slice", "as_ref", "deref", "by_ref", "inspect", "from_iter", "to_vec", "into_boxed_slice", "as_mut", "as_mut_slice", "borrow"}
 
 
@@ -690,6 +692,149 @@ def accumulators(P, fn):
             every = bool(okb) and all(g.cfg.dominates(gb, ob) for ob in okb)
             out.append({"mode": s.callee[0].split("::")[-1], "fn": g, "bb": gb, "lits": lits, "elem": strip_sites(subst(gs.args[1], cap)), "source": strip_sites(s.args[0]), "every": every, "cap": cap})
     return out
+
+
+_LIGHT_CALLS = {
+    "AsRef::as_ref", "Deref::deref", "Borrow::borrow", "slice::<impl [T]>::len", "slice::<impl [T]>::is_empty", "Vec::<T, A>::len", "Vec::<T, A>::is_empty",
+    "Vec::<T, A>::as_slice", "Index::index", "slice::<impl [T]>::first", "slice::<impl [T]>::last", "slice::<impl [T]>::get", "PartialEq::eq", "PartialEq::ne",
+    "PartialOrd::lt", "PartialOrd::le", "PartialOrd::gt", "PartialOrd::ge", "slice::<impl [T]>::starts_with", "slice::<impl [T]>::ends_with", "slice::<impl [T]>::contains",
+    "Option::<T>::is_some", "Option::<T>::is_none", "Option::<T>::unwrap_or", "Option::<T>::unwrap_or_default", "Clone::clone", "Into::into", "From::from",
+    "slice::<impl [T]>::to_vec", "ToOwned::to_owned", "slice::<impl [T]>::iter", "Iterator::count", "IntoIterator::into_iter", "slice::<impl [T]>::split_first", "slice::<impl [T]>::split_last",
+}
+
+
+def reads_directly(t, pnames, targets=()):
+    """Does the (branch) condition look at the named parameters itself - their bytes or length through indexing,
+    comparisons, arithmetic - rather than at the verdict of a function they were handed to?"""
+    t = strip_sites(t)
+    seen = {}
+
+    def rec(x):
+        if x in seen:
+            return seen[x]
+        seen[x] = False
+        r = False
+        if x in targets:
+            r = True
+        elif x.op == "param":
+            r = x.a[1] in pnames
+        elif x.op in ("call", "mutcall"):
+            if B.cname(x) in _LIGHT_CALLS:
+                args = x.a[1] if x.op == "call" else x.a[2]
+                r = any(rec(y) for y in args if isinstance(y, T))
+        else:
+            for y in x.a:
+                if isinstance(y, T):
+                    r = r or rec(y)
+                elif isinstance(y, tuple):
+                    r = r or any(rec(z) for z in y if isinstance(z, T))
+        seen[x] = r
+        return r
+
+    return rec(t)
+
+
+def check_message_blind_control(ctx, rule, P, root_keys, pnames=("msg", "message"), floor=4):
+    """Verification (and signing) decide through the hash of the message only: in every function reachable from the
+    roots that has a message parameter, no branch condition reads the message itself (its length, its bytes).  A branch
+    on `msg.is_empty()` or `msg[0]` makes the verdict differ from CoreVerify's for some message."""
+    from .common import reachable_fns
+
+    roots = [P.fns[k] for k in root_keys if k in P.fns]
+    for k in root_keys:
+        if k not in P.fns:
+            ctx.ob(rule + ".anchor", k, False, "function `%s` not found" % k)
+    reach = reachable_fns(P, roots)
+    n = 0
+    for k, f in sorted(reach.items()):
+        if f.from_expansion:
+            continue
+        mine = [f.locals[i].get("name") for i in range(1, f.arg_count + 1) if f.locals[i].get("name") in pnames]
+        if not mine:
+            continue
+        n += 1
+        ev = evaluate(f)
+        bad = [(b, d) for b, d in sorted(ev.switch.items()) if d is not None and reads_directly(d, mine)]
+        ctx.ob(rule, k, not bad, "no branch of %s looks at the message itself%s" % (k, "" if not bad else ": " + show(strip_sites(bad[0][1]), 4)[:160]), where=where(f, bad[0][0]) if bad else where(f))
+    ctx.floor(rule, "functions with a message parameter on the way", n, floor)
+
+
+def check_sum_once(ctx, rule, P, fn, list_param, out_adt, cov):
+    """The value handed out is the sum in which every list element occurs exactly once: under each scheme of element 0
+    the payload of the result is flattened over `+` into leaves - the accumulation (a loop / fold with its initial
+    value), the group identity, and terms of element 0.  With the accumulation running over list[1..] element 0 occurs
+    exactly once among the leaves (the initial value of the accumulator included); over the whole list, never."""
+    from . import guardrules as R
+    from . import spec as SP
+
+    def is_elem0(t):
+        for x in subterms(t):
+            if x.op == "index" and B._const_int(x.a[1]) == 0:
+                b = B.peel(x.a[0])
+                if b.op == "param" and b.a[1] == list_param:
+                    return True
+        return False
+
+    def leaves(t):
+        t = B.peel(t)
+        while True:
+            if t.op == "call" and B.cname(t) in ("Clone::clone", "Into::into", "From::from", "Try::branch", "Result::<T, E>::unwrap", "Result::<T, E>::expect", "Option::<T>::unwrap", "Option::<T>::expect") and len(t.a[1]) >= 1:
+                t = B.peel(t.a[1][0])
+            elif t.op == "field" and t.a[1] == "0" and t.a[0].op == "downcast" and t.a[0].a[1] in ("Continue", "Ok", "Some"):
+                # the value carried by `x?` / an Ok(..) / Some(..) payload
+                t = B.peel(t.a[0].a[0])
+            else:
+                break
+        if t.op == "call" and B.cname(t) in ("Add::add",) and len(t.a[1]) == 2:
+            return leaves(t.a[1][0]) + leaves(t.a[1][1])
+        if t.op == "phi":
+            return [("other", t)]
+        if t.op == "loop":
+            return [("acc", t)] + leaves(t.a[2])
+        if t.op == "call" and B.cname(t) in ("Iterator::fold", "Iterator::try_fold") and len(t.a[1]) == 3:
+            return [("acc", t)] + leaves(t.a[1][1])
+        if t.op == "call" and B.cname(t) in ("Iterator::sum",):
+            return [("acc", t)]
+        if t.op == "call" and B.cname(t) in ("Group::identity", "Default::default", "Zero::zero"):
+            return [("identity", t)]
+        if is_elem0(t):
+            return [("elem0", t)]
+        return [("other", t)]
+
+    n = 0
+    for a in SP.assumptions(P, fn):
+        ev = evaluate(fn, a)
+        for b in R.ok_blocks(fn):
+            v = R.ok_value(fn, ev, b)
+            if v is None:
+                continue
+            v = strip_sites(v)
+            pay = [x for x in subterms(v) if x.op == "agg" and x.a[0][0] == "adt" and x.a[0][1] == out_adt and len(x.a[1]) == 1]
+            if not pay:
+                continue
+            n += 1
+            ls = leaves(pay[0].a[1][0])
+            kinds = [k for k, _ in ls]
+            want0 = 1 if cov == "tail1" else 0
+            ok = kinds.count("acc") == 1 and kinds.count("elem0") == want0 and "other" not in kinds
+            name = "/".join(str(x) for x in a.values()) or "-"
+            ctx.ob(rule, "%s@%s" % (fn.key, name), ok, "with element 0 of scheme %s the result is the sum of [%s]: one accumulation over %s and element 0 exactly %d time(s)" % (name, ", ".join("%s" % k if k != "other" else "other:" + show(t, 3) for k, t in ls), "list[1..]" if cov == "tail1" else "the whole list", want0), where=where(fn, b))
+    return n
+
+
+def check_sum_once_of(ctx, rule, P, fn_key, list_param, out_adt, floor):
+    """check_sum_once with the coverage of the accumulation worked out here (for rules that do not look at it otherwise)."""
+    from . import guardrules as R
+
+    f = ctx.need_fn(rule, fn_key, P)
+    if f is None:
+        return
+    cov = [R.covers_all(a_["source"], list_param) for a_ in accumulators(P, f) if a_["source"] is not None]
+    if len(cov) != 1 or cov[0] not in ("all", "tail1"):
+        ctx.ob(rule, fn_key, False, "accumulation over `%s` not recognised (coverage %s)" % (list_param, cov), where=where(f))
+        return
+    n = check_sum_once(ctx, rule, P, f, list_param, out_adt, cov[0])
+    ctx.floor(rule, "schemes of %s whose result is the once-each sum" % fn_key, n, floor)
 
 
 # ---------------------------------------------------------------------------
